@@ -314,6 +314,12 @@ func (f *vhfsFile) mkObj(nm int, dir bool) (int, int) {
 }
 
 func (f *vhfsFile) Create(name string, flags OpenFlags, permissions FileMode, uid UID, gid GID) (File, QID, uint32, error) {
+	nf, q, u, err := f.createL(name, flags)
+	f.fs.park(5, f.id, vhfsNameID(name))
+	return nf, q, u, err
+}
+
+func (f *vhfsFile) createL(name string, flags OpenFlags) (File, QID, uint32, error) {
 	fs := f.fs
 	fs.mu.Lock()
 	defer fs.mu.Unlock()
